@@ -57,6 +57,8 @@ class PIter(object):
 
 
 class VC(object):
+    pre = None
+
     def __init__(self, kind, label, pc, goal, line, note=""):
         self.kind = kind
         self.label = label
@@ -84,8 +86,11 @@ class Ctx(object):
         self.wrap_cache = {}
         self.symvars = {}
         self.writes = []          # origins of mutated pre-existing objects
+        self._solver = None
+        self._ax_added = set()
         self.goal_mode = False    # True while a contract expression is evaluated as a proof goal
         self.assume_mode = False  # True while a callee's postcondition is being assumed
+        self.hyp_mode = False     # True while a loop invariant / precondition is being assumed
         self.alloc = 0
 
     # -- fresh symbols
@@ -105,11 +110,29 @@ class Ctx(object):
         if e is False:
             e = z3.BoolVal(False)
         self.pc.append(e)
+        if self._solver is not None:
+            self._solver.add(e)
+
+    def inc_solver(self):
+        """incremental solver holding the path condition and the ghost axioms instantiated so far"""
+        if self._solver is None:
+            self._solver = z3.Solver()
+            for p in self.pc:
+                self._solver.add(p)
+            self._ax_added = set()
+        for a in self.axioms():
+            k = a.get_id()
+            if k not in self._ax_added:
+                self._ax_added.add(k)
+                self._solver.add(a)
+        return self._solver
 
     def axioms(self):
         return self.reg.axioms()
 
     def feasible(self, extra):
+        # a fresh solver per query: z3's incremental mode (push/pop) skips its preprocessing and measured
+        # 2x slower on these obligations
         s = z3.Solver()
         s.set("timeout", self.engine.feas_timeout_ms)
         for p in self.pc:
@@ -155,26 +178,43 @@ class Ctx(object):
         e = z3.simplify(e)
         if z3.is_int_value(e):
             return e.as_long()
-        s = z3.Solver()
+        s = self.inc_solver()
         s.set("timeout", self.engine.feas_timeout_ms)
-        for p in self.pc:
-            s.add(p)
-        for a in self.axioms():
-            s.add(a)
         if s.check() != z3.sat:
             return None
         v = s.model().eval(e, model_completion=True)
         if not z3.is_int_value(v):
             return None
-        s.add(e != v)
-        if s.check() == z3.unsat:
+        s.push()
+        try:
+            s.add(e != v)
+            r = s.check()
+        finally:
+            s.pop()
+        if r == z3.unsat:
             return v.as_long()
         return None
 
     def emit(self, kind, label, goal, line=None, note=""):
         if isinstance(goal, bool):
             goal = z3.BoolVal(goal)
-        self.vcs.append(VC(kind, label, list(self.pc), goal, line, note))
+        vc = VC(kind, label, list(self.pc), goal, line, note)
+        # first attempt on the incremental solver (same formulas: pc + instantiated axioms + not goal);
+        # anything but unsat is re-decided on a fresh solver (and cvc5) after the path ends
+        if self.engine.solve_inline and not z3.is_true(z3.simplify(goal)):
+            import time as _t
+            t0 = _t.time()
+            s = self.inc_solver()
+            s.set("timeout", self.engine.timeout_ms)
+            s.push()
+            try:
+                s.add(z3.Not(goal))
+                r = s.check()
+            finally:
+                s.pop()
+            if r == z3.unsat:
+                vc.pre = {"verdict": "proved", "backend": "z3", "ms": round((_t.time() - t0) * 1000, 1)}
+        self.vcs.append(vc)
         self.assume(goal)
 
 
@@ -308,7 +348,7 @@ def str_eq(a, b, ctx=None):
     if ctx is not None and ctx.goal_mode:
         sk = ctx.fresh("sk_pos")
         return z3.And(a.length == b.length, z3.Implies(z3.And(sk >= 0, sk < a.length), a.at(sk) == b.at(sk)))
-    if ctx is not None and getattr(ctx, "assume_mode", False):
+    if ctx is not None and (getattr(ctx, "assume_mode", False) or getattr(ctx, "hyp_mode", False)):
         # as a hypothesis the pointwise fact is a universally quantified formula (array-property fragment)
         i = z3.Int("q_i")
         body = z3.Implies(z3.And(i >= 0, i < a.length), a.at(i) == b.at(i))
@@ -883,8 +923,12 @@ class Exec(object):
             k = ctx.fresh(kname)
             ctx.assume(z3.And(k >= 0, k <= seqlen))
             env[kname] = mk_int(k)
-        for (nm, e) in invs:
-            ctx.assume(self.spec_bool(e, env))
+        ctx.hyp_mode = True
+        try:
+            for (nm, e) in invs:
+                ctx.assume(self.spec_bool(e, env))
+        finally:
+            ctx.hyp_mode = False
         dec = spec.get("decreases")
         v0 = None
         if dec:
@@ -1099,7 +1143,9 @@ class Exec(object):
                     return False
             else:
                 acc.append(r)
-                if not self.frame.spec and len(node.ops) > 1:
+                pure_rest = all(isinstance(c, (ast.Name, ast.Constant)) for c in node.comparators)
+                if not self.frame.spec and len(node.ops) > 1 and not pure_rest:
+                    # later comparators are evaluated only if this comparison holds
                     if not self.ctx.branch(r):
                         return False
                     acc.pop()
@@ -1122,11 +1168,11 @@ class Exec(object):
         idx = self.eval(node.slice)
         return self.getitem(o, idx, node.lineno)
 
-    def ev_ListComp(self, node):
+    def ev_ListComp(self, node, precomputed=None):
         if len(node.generators) != 1:
             raise Unsupported("nested comprehension")
         g = node.generators[0]
-        items = self.iter_concrete(self.eval(g.iter), node.lineno)
+        items = self.iter_concrete(self.eval(g.iter) if precomputed is None else precomputed, node.lineno)
         out = []
         fr = self.frame
         saved = dict(fr.env)
@@ -1146,6 +1192,36 @@ class Exec(object):
             else:
                 fr.env.pop(nm, None)
         return PList(out)
+
+    def quantified_all(self, comp, g, rng):
+        """all([body for j in range(lo, hi)]) with symbolic bounds: skolemised in a positive goal, a universally
+        quantified hypothesis when assumed; anywhere else unsupported."""
+        ctx = self.ctx
+        lo, hi = zint(rng.lo), zint(rng.hi)
+        env = self.frame.env
+        saved = env.get(g.target.id, None)
+        had = g.target.id in env
+        try:
+            if ctx.goal_mode:
+                j = ctx.fresh("sk_" + g.target.id)
+                env[g.target.id] = SInt(j)
+                body = self.truth(self.eval(comp.elt))
+                body = z3.BoolVal(body) if isinstance(body, bool) else body
+                return mk_bool(z3.Implies(z3.And(j >= lo, j < hi), body))
+            if getattr(ctx, "assume_mode", False) or getattr(ctx, "hyp_mode", False):
+                ctx.nfresh += 1
+                j = z3.Int("q_%s_%d" % (g.target.id, ctx.nfresh))
+                env[g.target.id] = SInt(j)
+                gm = ctx.goal_mode
+                body = self.truth(self.eval(comp.elt))
+                body = z3.BoolVal(body) if isinstance(body, bool) else body
+                return SBool(z3.ForAll([j], z3.Implies(z3.And(j >= lo, j < hi), body)))
+            raise Unsupported("quantified all() outside a goal or a hypothesis")
+        finally:
+            if had:
+                env[g.target.id] = saved
+            else:
+                env.pop(g.target.id, None)
 
     def ev_GeneratorExp(self, node):
         r = self.ev_ListComp(node)
@@ -1932,6 +2008,16 @@ class Exec(object):
     def ev_Call(self, node):
         f = self.eval(node.func)
         args = []
+        if self.frame.spec and isinstance(node.func, ast.Name) and node.func.id == "all" and len(node.args) == 1 \
+                and isinstance(node.args[0], (ast.ListComp, ast.GeneratorExp)) and len(node.args[0].generators) == 1 \
+                and not node.args[0].generators[0].ifs and isinstance(node.args[0].generators[0].target, ast.Name):
+            g = node.args[0].generators[0]
+            it = self.eval(g.iter)
+            if isinstance(it, RangeVal):
+                return self.quantified_all(node.args[0], g, it)
+            # concrete iterable: ordinary evaluation over the iterable already computed
+            lst = self.ev_ListComp(node.args[0], precomputed=it)
+            return self.call(f, [lst], {}, node.lineno)
         if self.frame.spec and isinstance(node.func, ast.Name) and node.func.id == "implies" and len(node.args) == 2:
             gm = self.ctx.goal_mode
             self.ctx.goal_mode = False
